@@ -9,6 +9,7 @@ import (
 	"net/http/httptest"
 	"net/url"
 	"os"
+	"regexp"
 	goruntime "runtime"
 	"sort"
 	"strconv"
@@ -241,15 +242,19 @@ func (r *c09Routable) HandlerFor(method, path string) (http.Handler, bool) {
 func (r *c09Routable) ServeErrorFor(string) func(http.ResponseWriter, *http.Request, error) {
 	return r.api.ServeError
 }
-func (r *c09Routable) ConsumersFor(mt []string) map[string]runtime.Consumer { return r.api.ConsumersFor(mt) }
-func (r *c09Routable) ProducersFor(mt []string) map[string]runtime.Producer { return r.api.ProducersFor(mt) }
+func (r *c09Routable) ConsumersFor(mt []string) map[string]runtime.Consumer {
+	return r.api.ConsumersFor(mt)
+}
+func (r *c09Routable) ProducersFor(mt []string) map[string]runtime.Producer {
+	return r.api.ProducersFor(mt)
+}
 func (r *c09Routable) AuthenticatorsFor(s map[string]spec.SecurityScheme) map[string]runtime.Authenticator {
 	return r.api.AuthenticatorsFor(s)
 }
 func (r *c09Routable) Authorizer() runtime.Authorizer { return r.api.Authorizer() }
-func (r *c09Routable) Formats() strfmt.Registry      { return r.api.Formats() }
-func (r *c09Routable) DefaultProduces() string       { return r.api.DefaultProduces }
-func (r *c09Routable) DefaultConsumes() string       { return r.api.DefaultConsumes }
+func (r *c09Routable) Formats() strfmt.Registry       { return r.api.Formats() }
+func (r *c09Routable) DefaultProduces() string        { return r.api.DefaultProduces }
+func (r *c09Routable) DefaultConsumes() string        { return r.api.DefaultConsumes }
 
 func c09Render(v interface{}) string {
 	m, ok := v.(map[string]interface{})
@@ -268,15 +273,28 @@ func c09Render(v interface{}) string {
 	return "{" + strings.Join(parts, "&") + "}"
 }
 
-var c09Doc *loads.Document
+var c09Doc, c09DocIDs, c09DocNoIDs *loads.Document
+
+// c09NoIDs (stream R only): operationId is optional — the same description without any. Operations are
+// still told apart by method and path; nothing may be keyed by the (then empty) id.
+const c09NoIDs = 1 << 20
 
 func c09Build(variant int, serve bool, entry int) *c09API {
-	if c09Doc == nil {
+	if c09DocIDs == nil {
 		d, err := loads.Analyzed(json.RawMessage(c09Spec), "")
 		if err != nil {
 			panic("c09 spec: " + err.Error())
 		}
-		c09Doc = d
+		c09DocIDs = d
+		bare := regexp.MustCompile(`"operationId":"[A-Za-z]+",?`).ReplaceAllString(c09Spec, "")
+		if d, err = loads.Analyzed(json.RawMessage(bare), ""); err != nil {
+			panic("c09 spec without ids: " + err.Error())
+		}
+		c09DocNoIDs = d
+	}
+	c09Doc = c09DocIDs
+	if variant&c09NoIDs != 0 {
+		c09Doc = c09DocNoIDs
 	}
 	a := &c09API{doc: c09Doc}
 	api := untyped.NewAPI(c09Doc).WithoutJSONDefaults()
@@ -1020,6 +1038,10 @@ func c09ExecR(in []string) []string {
 	if (n+procs)/6%2 == 1 {
 		variant = c09Debug
 	}
+	if (n+procs)/12%2 == 1 {
+		variant |= c09NoIDs
+		defer func() { c09Doc = c09DocIDs }()
+	}
 	if variant&c09Debug != 0 {
 		middleware.Debug = true
 		defer func() { middleware.Debug = false }()
@@ -1191,7 +1213,9 @@ func c09GenReq(r *proto.Rng, tok string) c09Req {
 	return q
 }
 
-func c09Instr(op, arg, back int) string { return proto.B(string([]byte{byte(op), byte(arg), byte(back)})) }
+func c09Instr(op, arg, back int) string {
+	return proto.B(string([]byte{byte(op), byte(arg), byte(back)}))
+}
 
 func c09CaseA(variant int, q c09Req, table [][]string, prog []string) []string {
 	p := "."
